@@ -171,6 +171,25 @@ EXTRA = [
             "q": {"1": {"RDEPEND": ""}, "3": {"RDEPEND": ""}}, "r": {"3": {"RDEPEND": "=a/q-1", "DEPEND": "|| ( a/q a/q )"}},
             "s": {"1": {"RDEPEND": ""}, "2": {"RDEPEND": "|| ( a/r a/p )"}, "3": {"RDEPEND": "a/p a/r", "SLOT": "3"}}}}, {}, ["a/s", "a/q"], "upgrade"),
 ]
+
+
+def _shared_blocker_family():
+    """an equal blocker held by two packages (or twice by one), the later holder backed out of, then something that the blocker
+    matches becomes attractive: the first holder's blocker must still be in force"""
+    out = []
+    for cls2 in ("DEPEND", "RDEPEND", "DEPEND+RDEPEND"):
+        for first in ("RDEPEND", "DEPEND"):
+            second = {"RDEPEND": "a/missing"}
+            for c in cls2.split("+"):
+                second[c] = (second.get(c, "") + " !a/x").strip()
+            src = {"a": {"b": {"1": {first: "!a/x"}}, "a": {"1": {}, "2": second}, "c": {"1": {"RDEPEND": "|| ( a/x a/y )"}}, "x": {"1": {}}, "y": {"1": {}}}}
+            for targets in (["a/b", "a/a", "a/c"], ["a/a", "a/b", "a/c"]):
+                for kind in ("upgrade", "min_install"):
+                    out.append((src, {}, targets, kind))
+    return out
+
+
+EXTRA += _shared_blocker_family()
 RECURSION_INPUTS = {"3206975074a0", "ddfdb71f8778"}
 BLOCKER_INPUTS = {"8624bce3c444", "c49c27792a00"}
 
